@@ -59,4 +59,4 @@ Example C03_example :
   do_top uni_ascii no_engines t
     (VMap KtStr EAny false [(VStr false (bs "a"), VBool false true); (VStr false (bs "b"), VBool false false)])
   = Ok (vbool (group_value false [group_value true [true; false]; false])).
-Proof. eexists. split; vm_compute; reflexivity. Qed.
+Proof. eexists. split; [vm_compute; reflexivity|]. vm_compute. reflexivity. Qed.
